@@ -214,6 +214,8 @@ def r3(ctx):
                 ok = 'dominated by assert!(node.isleaf)'
         if any(is_call(x, 'Tree::terminal_indices') for x in walk(node)):
             ok = 'node drawn from terminal_indices()'
+        if ok is None and prune.leaf_guard(lits, node):
+            ok = 'dominated by tree.is_leaf(node) == true'
         if ok:
             ctx.ok('C05.R3', site, 'rewrites a terminal only: ' + ok, t['span'])
         else:
